@@ -450,12 +450,15 @@ def reduced_state_from_vector(
     """
     rho = jnp.matmul(amplitudes, jnp.conj(amplitudes.T))
     trace = jnp.real(jnp.trace(rho))
-    purity = jnp.real(jnp.trace(jnp.matmul(rho, rho)))
-    if jnp.abs(purity - trace**2) <= tol * trace**2:
-        norms = jnp.linalg.norm(amplitudes, axis=0)
-        column = amplitudes[:, jnp.argmax(norms)]
-        vector = column / jnp.linalg.norm(column) * jnp.sqrt(trace)
-        return vector.reshape(-1, 1)
+    # The reduced state is pure if all the columns are multiples of one vector;
+    # the test is made on the amplitudes, so that weakly populated branches
+    # (which matter for the support of the state) are not dropped
+    norms = jnp.linalg.norm(amplitudes, axis=0)
+    column = amplitudes[:, jnp.argmax(norms)]
+    unit = column / jnp.linalg.norm(column)
+    residual = amplitudes - jnp.outer(unit, jnp.matmul(jnp.conj(unit), amplitudes))
+    if jnp.linalg.norm(residual) <= tol * jnp.sqrt(trace):
+        return (unit * jnp.sqrt(trace)).reshape(-1, 1)
     return rho
 
 
